@@ -16,6 +16,7 @@ import (
 	"fmt"
 	"math/big"
 	"os"
+	"runtime"
 	"sort"
 	"sync"
 	"testing"
@@ -87,6 +88,8 @@ type c13Env struct {
 	curCid []byte
 	last   *types.Block
 }
+
+const c13HangTimeout = 40 * time.Second
 
 func c13Addr(i int) []byte {
 	a := make([]byte, types.AddressLength)
@@ -406,7 +409,21 @@ func TestVerifC13Engine(t *testing.T) {
 				}(ops)
 			}
 			close(start)
-			wg.Wait()
+			done := make(chan struct{})
+			go func() { wg.Wait(); close(done) }()
+			select {
+			case <-done:
+			case <-time.After(c13HangTimeout):
+				// a goroutine never came back: report and stop (goroutines cannot be killed)
+				buf := make([]byte, 1<<20)
+				buf = buf[:runtime.Stack(buf, true)]
+				o := c13Obs{Res: "hang", Lists: []c13List{}, Cache: []int{}, Extra: []string{string(buf)}}
+				b, _ := json.Marshal([]c13Obs{o})
+				fmt.Fprintln(w, string(b))
+				w.Flush()
+				out.Close()
+				os.Exit(0)
+			}
 			var o c13Obs
 			o.Res = "final"
 			e.dump(&o)
